@@ -200,6 +200,7 @@ class Executor(object):
         self.axioms = []
         self.probes = []        # (name, assumptions): must not be refutable (vacuity guard)
         self.heavy_ids = set()  # assumptions (semantic axiom bundles) that frame obligations do not need
+        self.heavy2_ids = set() # further bulky requires clauses, dropped only where hints['slice_more'] matches
 
     def _owner_is(self, fnode, nd):
         # loops of nested function definitions belong to the nested function
@@ -213,8 +214,9 @@ class Executor(object):
     # -- obligations ---------------------------------------------------------
     def oblige(self, name, path, goal, tags=('functional',), line=None, extra=None):
         pcs = path.pc
+        extra_slice = self.k.hints.get('slice_heavy')
         if self.heavy_ids and ('frame' in tags or ':unchanged:' in name or name.endswith('iterated_container_unchanged')
-                               or ':alloc:' in name):
+                               or ':alloc:' in name or (extra_slice and re.search(extra_slice, name))):
             # assumption slicing (sound: fewer assumptions): pure heap-frame goals do not need the semantics axioms
             pcs = [a for a in path.pc if a.get_id() not in self.heavy_ids]
         assumptions = list(self.axioms) + list(pcs) + list(extra or [])
@@ -236,7 +238,13 @@ class Executor(object):
                         G, inst = G        # (forall lemma, terms to instantiate it at)
                     if not any(z3.eq(G, a_) for a_ in assumptions):
                         # (a cut that is literally one of the assumptions needs no proof)
-                        self.obls.append(Obligation('%s:%s:cut%d' % (self.k.qualname, name, i + 1), list(assumptions), G,
+                        cut_assumptions = list(assumptions)
+                        if extra_slice and self.heavy_ids and re.search(extra_slice, '%s:cut%d' % (name, i + 1)):
+                            cut_assumptions = [a_ for a_ in cut_assumptions if a_.get_id() not in self.heavy_ids]
+                        more = self.k.hints.get('slice_more')
+                        if more and re.search(more, '%s:cut%d' % (name, i + 1)):
+                            cut_assumptions = [a_ for a_ in cut_assumptions if a_.get_id() not in self.heavy2_ids]
+                        self.obls.append(Obligation('%s:%s:cut%d' % (self.k.qualname, name, i + 1), cut_assumptions, G,
                                                     ('lemma',), self.k.qualname, line))
                     assumptions = assumptions + [G]
                     cuts_only.append(G)
